@@ -45,6 +45,7 @@ func (c05) Plan(tier string, seed int64) []mon.Workload {
 		{Name: "truncate", N: 60 * m},
 		{Name: "strings", N: 4000 * m},
 		{Name: "numbers", N: int64(len(c05Numbers) * len(c05NumCtx)), Exhaustive: true},
+		{Name: "numbers-nested", N: int64(len(c05NestNums) * len(c05NestInner) * (len(c05NumCtx) + len(c05NestOuter))), Exhaustive: true},
 		{Name: "nesting", N: 40},
 		{Name: "bytes", N: 3000 * m},
 		{Name: "number-soup", N: 4000 * m},
@@ -67,6 +68,16 @@ var c05DiagStmts = []string{"x = 1 / 0", "x = 7 % 0", "x = \"\\X41\"", "x = a[1.
 
 var c05NumCtx = []string{"x = %s", "x = %s中", "f(%s😀)", "x = %sé + 1", "-%s", "- %s", "+%s", "!%s", "for a in %s {}", "a[%s:]", "a[:%s]", "a[::%s]", "a[%s]", "%s + 1", "1 + %s", "f(%s)", "f(k=%s)",
 	"[%s]", "{\"k\": %s}", "{%s: 1}", "if %s {}", "x / %s", "x %% %s", "x /= %s", "(%s)", "%s[0:1]", "%s in x", "for ; %s; {}", "for %s;; {}", "x, y = %s, 1", "-%s[1:2]", "%s.a", "a.%s"}
+
+// numbers-nested (exhaustive): an operand the parser rejects by itself
+// (malformed number, constant zero divisor), as an operand of every kind of
+// expression, and that expression in every statement context - including the
+// places where only an identifier or an iterable is admitted, so that a
+// second diagnostic about the enclosing construct meets the first.
+var c05NestNums = []string{"0x", "1e", "1e+", "0x1.8", "1/0", "1%0", "1e999", "99999999999999999999999", "0x1g", "1.2.3", "a[1.5:]", "'\\q'"}
+var c05NestInner = []string{"%s == a", "%s != a", "%s < a", "%s >= a", "%s && a", "%s || a", "%s in a", "a == %s", "a in %s", "a && %s", "!%s", "(%s)", "[%s]", "%s + 1", "1 - %s", "-%s", "%s[0]", "f(%s)", "{\"k\": %s}", "%s == %s"}
+var c05NestOuter = []string{"for %s in x {}", "for a in x { y = %s }", "if a {} elif %s {} else {}", "for k = %s; k < 1; k = k + 1 {}", "for ;; k = %s {}", "x = a[1:2] + %s", "for %s in %s {}", "x = 1\nfor %s in x {\n  y = 2\n}\nz = 3",
+	"if %s {\n  y = 1/0\n}", "x = [1, %s,\n  2]"}
 
 var c05Tokens = []string{",", "*", "*=", "/", "/=", "%", "%=", "+", "+=", "-", "-=", "=", "==", ":", ";", "\n", ".", "||", "&&", "!", "!=", "<", "<=", ">", ">=",
 	"(", ")", "{", "}", "[", "]", "if", "elif", "else", "for", "in", "break", "continue", "true", "false", "nil", "null", "while", "return", "str", "int", "map",
@@ -200,6 +211,13 @@ func (k c05) inputs(c *mon.Ctx, workload string, i int64) []string {
 		}
 		ctx := []string{"x = %s", "%s", "f(%s)", "a[%s:]", "x = 1 + %s", "x = [%s, %s]", "if %s {}", "x = -%s", "%s = 1", "x = %s\ny = 2"}[r.Intn(10)]
 		return []string{strings.ReplaceAll(ctx, "%s", sb.String())}
+	case "numbers-nested":
+		outer := append(append([]string{}, c05NumCtx...), c05NestOuter...)
+		o := outer[int(i)%len(outer)]
+		i /= int64(len(outer))
+		in := c05NestInner[int(i)%len(c05NestInner)]
+		n := c05NestNums[int(i)/len(c05NestInner)]
+		return []string{strings.ReplaceAll(strings.ReplaceAll(o, "%s", strings.ReplaceAll(in, "%s", n)), "%%", "%")}
 	case "numbers":
 		n := c05Numbers[int(i)/len(c05NumCtx)]
 		ctx := c05NumCtx[int(i)%len(c05NumCtx)]
